@@ -43,13 +43,17 @@ const (
 )
 
 type c02Step struct {
-	K string `json:"k"`           // H set header, S WriteHeader, W one Write, M many Writes, Z sleep, C wait ctx.Done, P panic, R read the request body slowly
-	N int    `json:"n,omitempty"` // S: status, W: chunk repetitions in the one Write (~9 B each), M: number of one-chunk Writes, Z: ticks, R: ticks slept after every 16 body bytes read
+	K string `json:"k"`           // H set header, S WriteHeader, W one Write, B one Write of exactly N bytes, M many Writes, Z sleep, C wait ctx.Done, P panic, R read the request body slowly
+	N int    `json:"n,omitempty"` // H: kind of key/value (c02HdrVals), P: kind of panic value (c02PanicKinds), B: bytes, // S: status, W: chunk repetitions in the one Write (~9 B each), M: number of one-chunk Writes, Z: ticks, R: ticks slept after every 16 body bytes read
 }
 
 type c02Req struct {
 	At int       `json:"at"`           // arrival, ticks after the start of the group
 	Rt int       `json:"rt,omitempty"` // route index
+	Sv int       `json:"sv,omitempty"` // server: 0, or 1 = the twin server of the case (c02Case.B)
+	DL int       `json:"dl,omitempty"` // the request's context carries a deadline of its own, DL-1 ticks after arrival; 0: none
+	CU bool      `json:"cu,omitempty"` // Content-Length unknown (-1, chunked upload): nothing is declared
+	Up string    `json:"up,omitempty"` // value of an Upgrade request header
 	BL int       `json:"bl,omitempty"` // real body length
 	CL int       `json:"cl,omitempty"` // declared Content-Length
 	Cn int       `json:"cn"`           // client cancel, ticks after arrival; -1: never
@@ -74,6 +78,13 @@ type c02Route struct {
 	Sh bool     `json:"sh,omitempty"`
 }
 
+// c02Cfg: the three guard settings of a server's Config (values <= 0 switch the guard off).
+type c02Cfg struct {
+	T  int `json:"t"`
+	MC int `json:"mc"`
+	MB int `json:"mb"`
+}
+
 type c02Case struct {
 	T  int  `json:"t"`  // Config.Timeout in ms, 0 = off
 	MC int  `json:"mc"` // Config.MaxConns, 0 = off
@@ -83,9 +94,12 @@ type c02Case struct {
 	// EH: process-wide httpx configuration while the case runs (reset afterwards):
 	// 0 none, 1 httpx.SetErrorHandler(fn), 2 httpx.SetErrorHandlerCtx(fn); fn maps every
 	// error to 418 + {"c02":"business-error"}
-	EH int        `json:"eh,omitempty"`
-	R  []c02Route `json:"r"`
-	G  [][]c02Req `json:"g"` // groups, 11 s apart
+	EH int `json:"eh,omitempty"`
+	// B: a second server lives in the same process for the whole case: other Config, but
+	// the SAME []Route slices and the SAME []RouteOption slices as the first one
+	B *c02Cfg    `json:"b,omitempty"`
+	R []c02Route `json:"r"`
+	G [][]c02Req `json:"g"` // groups, 11 s apart
 }
 
 // Model of the route options, from their documentation: the last WithTimeout /
@@ -93,7 +107,33 @@ type c02Case struct {
 // Config value"), every WithPrefix(group) puts group in front of the path built so
 // far, WithPriority changes nothing here (no shedder in the chain). An option never
 // undoes another kind of option, whatever the order.
-func (c c02Case) timeoutTicks(rt int) int {
+func (c c02Case) cfg(sv int) c02Cfg {
+	if sv == 1 && c.B != nil {
+		return *c.B
+	}
+	return c02Cfg{T: c.T, MC: c.MC, MB: c.MB}
+}
+
+func (c c02Case) servers() int {
+	if c.B != nil {
+		return 2
+	}
+	return 1
+}
+
+// slot numbers the bound routes of the case: every (server, route) pair has a chain,
+// a latch and a breaker of its own.
+func (c c02Case) slot(sv, rt int) int { return sv*len(c.R) + rt }
+func (c c02Case) slots() int          { return c.servers() * len(c.R) }
+
+func (c c02Case) mc(sv int) int {
+	if n := c.cfg(sv).MC; n > 0 {
+		return n
+	}
+	return 0
+}
+
+func (c c02Case) timeoutTicks(sv, rt int) int {
 	v := 0
 	for _, o := range c.R[rt].O {
 		if o.K == "timeout" {
@@ -103,10 +143,13 @@ func (c c02Case) timeoutTicks(rt int) int {
 	if v > 0 {
 		return v
 	}
-	return c.T * 10
+	if t := c.cfg(sv).T; t > 0 {
+		return t * 10
+	}
+	return 0
 }
 
-func (c c02Case) maxBytes(rt int) int {
+func (c c02Case) maxBytes(sv, rt int) int {
 	v := 0
 	for _, o := range c.R[rt].O {
 		if o.K == "maxbytes" {
@@ -116,7 +159,10 @@ func (c c02Case) maxBytes(rt int) int {
 	if v > 0 {
 		return v
 	}
-	return c.MB
+	if n := c.cfg(sv).MB; n > 0 {
+		return n
+	}
+	return 0
 }
 
 func (c c02Case) basePath(rt int) string {
@@ -171,6 +217,7 @@ type c02Plan struct {
 	panics     bool
 	reads      bool              // the handler reads the request body
 	readAcross bool              // ... and is in the middle of doing so when the deadline fires
+	bypass     bool              // "Upgrade: websocket": the timeout guard steps aside (hijack path, outside the statement)
 	big        bool              // the handler's body is larger than 1 KB
 	badStatus  bool              // the panic is raised inside WriteHeader by an out-of-range status code
 	code       int               // status of the handler's own response
@@ -203,26 +250,87 @@ func c02Chunk(id, step, n int) []byte {
 func c02HdrKey(id, step int) string { return fmt.Sprintf("%s%d-%d", c02HdrPrefix, id, step) }
 func c02HdrVal(id, step int) string { return fmt.Sprintf("v%d.%d", id, step) }
 
+// c02Bytes: exactly n marker bytes.
+func c02Bytes(id, step, n int) []byte { return c02Chunk(id, step, n/8+1)[:n] }
+
+var c02HdrKinds = []string{"plain", "empty-value", "format-verbs", "multi-byte", "4KB-value", "two-values", "non-canonical-key"}
+
+// c02HdrVals: the values a header step of the given kind sets.
+func c02HdrVals(id, step, kind int) []string {
+	switch kind {
+	case 1:
+		return []string{""}
+	case 2:
+		return []string{fmt.Sprintf("%%s%%d%%!(EXTRA)%%v-%d.%d", id, step)}
+	case 3:
+		return []string{fmt.Sprintf("héllo-世界-%d.%d", id, step)}
+	case 4:
+		return []string{strings.Repeat("x", 4096) + c02HdrVal(id, step)}
+	case 5:
+		return []string{"a" + c02HdrVal(id, step), "b" + c02HdrVal(id, step)}
+	}
+	return []string{c02HdrVal(id, step)}
+}
+
+func c02SetHeader(h http.Header, id, step, kind int) {
+	key, vals := c02HdrKey(id, step), c02HdrVals(id, step, kind)
+	switch kind {
+	case 5:
+		for _, v := range vals {
+			h.Add(key, v)
+		}
+	case 6:
+		h[strings.ToLower(key)] = vals // a handler may fill the map directly
+	default:
+		h.Set(key, vals[0])
+	}
+}
+
+var c02PanicKinds = []string{"string", "string-with-format-verbs", "error", "runtime-error", "http.ErrAbortHandler", "int"}
+
+func c02Panic(kind, id int) {
+	switch kind {
+	case 1:
+		panic(fmt.Sprintf("c02 handler panic %%s %%d %%!v(MISSING) %%, request %d", id))
+	case 2:
+		panic(fmt.Errorf("c02 handler panic (error), request %d", id))
+	case 3:
+		var m map[int]int
+		m[id] = 1
+	case 4:
+		panic(http.ErrAbortHandler) // net/http's "abort quietly" convention; for the chain it is a panic like any other
+	case 5:
+		panic(id)
+	}
+	panic(fmt.Sprintf("c02 handler panic, request %d", id))
+}
+
 // c02MakePlan interprets the handler program symbolically: 30 lines of
 // http.ResponseWriter semantics (first status wins, implicit 200, body =
 // concatenation of the writes, headers set before the first write).
 func c02MakePlan(c c02Case, id int, q c02Req) c02Plan {
 	p := c02Plan{d: -1, hdr: map[string]string{}, code: http.StatusOK}
-	t := c.timeoutTicks(q.Rt)
-	ctxDone := -1 // instant at which the handler's context is done
-	if t > 0 {
-		p.d = t
-		p.kinds = []int{http.StatusServiceUnavailable}
-		ctxDone = t
-		if q.Cn >= 0 && q.Cn < t {
-			p.d = q.Cn
-			p.kinds = []int{499}
-			ctxDone = q.Cn
-		} else if q.Cn == t {
-			p.kinds = []int{http.StatusServiceUnavailable, 499}
+	t := c.timeoutTicks(q.Sv, q.Rt)
+	p.bypass = q.Up == "websocket" && t > 0
+	// instant at which the handler's context is done: route timeout, a deadline the
+	// request's own context carries, client cancel — whichever comes first
+	ctxDone := -1
+	upd := func(x int) {
+		if x >= 0 && (ctxDone < 0 || x < ctxDone) {
+			ctxDone = x
 		}
-	} else if q.Cn >= 0 {
-		ctxDone = q.Cn
+	}
+	upd(q.Cn)
+	upd(q.DL - 1)
+	if t > 0 {
+		upd(t)
+		p.d = ctxDone
+		if t == p.d || q.DL-1 == p.d {
+			p.kinds = append(p.kinds, http.StatusServiceUnavailable) // a deadline passed
+		}
+		if q.Cn == p.d {
+			p.kinds = append(p.kinds, 499) // the client went away
+		}
 	}
 	e := 0
 	bodyLeft := q.BL // bytes the handler can still read (the gunzipped length for a gzip body)
@@ -239,7 +347,7 @@ loop:
 		switch s.K {
 		case "H":
 			if !p.commit {
-				p.hdr[c02HdrKey(id, i)] = c02HdrVal(id, i)
+				p.hdr[c02HdrKey(id, i)] = strings.Join(c02HdrVals(id, i, s.N), ",")
 				wrote()
 			}
 		case "S":
@@ -257,9 +365,13 @@ loop:
 				p.risky = true
 			}
 			wrote()
-		case "W", "M":
+		case "W", "M", "B":
 			p.commit = true
-			p.body = append(p.body, c02Chunk(id, i, s.N)...)
+			if s.K == "B" {
+				p.body = append(p.body, c02Bytes(id, i, s.N)...)
+			} else {
+				p.body = append(p.body, c02Chunk(id, i, s.N)...)
+			}
 			if len(p.body) > 1024 {
 				p.big = true
 			}
@@ -393,7 +505,7 @@ type c02Obs struct {
 // ---------------------------------------------------------------------------
 // execution
 
-type c02Builder func(c c02Case, h http.HandlerFunc) (serve func(rt int, w http.ResponseWriter, r *http.Request), err error)
+type c02Builder func(c c02Case, h http.HandlerFunc) (serve func(slot int, w http.ResponseWriter, r *http.Request), err error)
 
 type c02Flat struct {
 	id    int
@@ -431,7 +543,7 @@ func c02Flatten(c c02Case) (flat []c02Flat, endUS int64) {
 
 func c02Method(m string) string {
 	switch m {
-	case http.MethodGet, http.MethodPost, http.MethodPut, http.MethodDelete:
+	case http.MethodGet, http.MethodPost, http.MethodPut, http.MethodDelete, http.MethodHead, http.MethodOptions, http.MethodPatch:
 		return m
 	}
 	return http.MethodPost
@@ -439,7 +551,10 @@ func c02Method(m string) string {
 
 // c02Valid re-checks the generator's preconditions (replay files are data).
 func c02Valid(c c02Case) bool {
-	if len(c.R) == 0 || len(c.R) > 3 || c.T < 0 || c.MC < 0 || c.MB < 0 || c.EH < 0 || c.EH > 2 {
+	if len(c.R) == 0 || len(c.R) > 3 || c.T < -1 || c.MC < -1 || c.MB < -1 || c.EH < 0 || c.EH > 2 {
+		return false
+	}
+	if c.B != nil && (c.B.T < -1 || c.B.MC < -1 || c.B.MB < -1) {
 		return false
 	}
 	paths := map[string]bool{}
@@ -473,16 +588,16 @@ func c02Valid(c c02Case) bool {
 	}
 	id := 0
 	for _, g := range c.G {
-		risky := make([]int, len(c.R))
+		risky := make([]int, c.slots())
 		for _, q := range g {
-			if q.Rt < 0 || q.Rt >= len(c.R) || q.At < 0 || q.BL < 0 || q.CL < 0 || id >= 90 || (q.GZ && q.BB) {
+			if q.Rt < 0 || q.Rt >= len(c.R) || q.Sv < 0 || q.Sv >= c.servers() || q.At < 0 || q.BL < 0 || q.CL < 0 || q.DL < 0 || id >= 90 || (q.GZ && q.BB) {
 				return false
 			}
 			seenWrite := false
 			for _, s := range q.P {
 				switch s.K {
 				case "H":
-					if seenWrite {
+					if seenWrite || s.N < 0 || s.N >= len(c02HdrKinds) {
 						return false
 					}
 				case "S":
@@ -491,7 +606,12 @@ func c02Valid(c c02Case) bool {
 					}
 					seenWrite = true
 				case "W", "M":
-					if s.N < 1 || s.N > 8000 {
+					if s.N < 1 || s.N > 120000 || (s.K == "M" && s.N > 8000) {
+						return false
+					}
+					seenWrite = true
+				case "B":
+					if s.N < 0 || s.N > 1<<20+1 {
 						return false
 					}
 					seenWrite = true
@@ -503,13 +623,22 @@ func c02Valid(c c02Case) bool {
 					if s.N < 0 || q.BB {
 						return false // a body that never delivers cannot be read to its end
 					}
-				case "C", "P":
+				case "C":
+				case "P":
+					if s.N < 0 || s.N >= len(c02PanicKinds) {
+						return false
+					}
 				default:
+					return false
+				}
+				if q.Up == "websocket" && (s.K == "Z" || s.K == "C" || s.K == "R") {
+					// the guard steps aside for such a request; only programs that take no time are
+					// generated, so that the latch model and the owed response do not depend on it
 					return false
 				}
 			}
 			if c02MakePlan(c, id, q).risky {
-				risky[q.Rt]++
+				risky[c.slot(q.Sv, q.Rt)]++
 			}
 			id++
 		}
@@ -532,8 +661,8 @@ func c02Run(t *testing.T, c c02Case, build c02Builder, leakExpected bool) (v kit
 	for i := range obs {
 		obs[i] = &c02Obs{rec: &c02Rec{hdr: http.Header{}}}
 	}
-	cur := make([]int32, len(c.R))
-	maxCur := make([]int32, len(c.R))
+	cur := make([]int32, c.slots())
+	maxCur := make([]int32, c.slots())
 	var maxMu sync.Mutex
 	var buildErr error
 
@@ -549,24 +678,27 @@ func c02Run(t *testing.T, c c02Case, build c02Builder, leakExpected bool) (v kit
 			o := obs[id]
 			q := progs[id]
 			atomic.AddInt32(&o.entered, 1)
-			n := atomic.AddInt32(&cur[q.Rt], 1)
+			sl := c.slot(q.Sv, q.Rt)
+			n := atomic.AddInt32(&cur[sl], 1)
 			maxMu.Lock()
-			if n > maxCur[q.Rt] {
-				maxCur[q.Rt] = n
+			if n > maxCur[sl] {
+				maxCur[sl] = n
 			}
 			maxMu.Unlock()
 			defer func() {
-				atomic.AddInt32(&cur[q.Rt], -1)
+				atomic.AddInt32(&cur[sl], -1)
 				atomic.AddInt32(&o.exited, 1)
 			}()
 			for i, s := range q.P {
 				switch s.K {
 				case "H":
-					w.Header().Set(c02HdrKey(id, i), c02HdrVal(id, i))
+					c02SetHeader(w.Header(), id, i, s.N)
 				case "S":
 					w.WriteHeader(s.N)
 				case "W":
 					w.Write(c02Chunk(id, i, s.N))
+				case "B":
+					w.Write(c02Bytes(id, i, s.N))
 				case "M":
 					for j := 0; j < s.N; j++ {
 						w.Write(c02Chunk(id, i, 1))
@@ -591,7 +723,7 @@ func c02Run(t *testing.T, c c02Case, build c02Builder, leakExpected bool) (v kit
 						}
 					}
 				case "P":
-					panic(fmt.Sprintf("c02 handler panic, request %d", id))
+					c02Panic(s.N, id)
 				}
 			}
 		}
@@ -622,6 +754,11 @@ func c02Run(t *testing.T, c c02Case, build c02Builder, leakExpected bool) (v kit
 					o.done = true
 				}()
 				ctx := context.Background()
+				if fl.q.DL > 0 {
+					var cancel context.CancelFunc
+					ctx, cancel = context.WithTimeout(ctx, time.Duration(fl.q.DL-1)*c02Tick)
+					defer cancel()
+				}
 				if fl.q.Cn >= 0 {
 					var cancel context.CancelFunc
 					ctx, cancel = context.WithCancel(ctx)
@@ -644,8 +781,15 @@ func c02Run(t *testing.T, c c02Case, build c02Builder, leakExpected bool) (v kit
 					r.Header.Set("Content-Encoding", "gzip")
 				}
 				r.ContentLength = int64(fl.q.CL)
+				if fl.q.CU {
+					r.ContentLength = -1
+				}
+				if fl.q.Up != "" {
+					r.Header.Set("Upgrade", fl.q.Up)
+					r.Header.Set("Connection", "Upgrade")
+				}
 				r.Header.Set("X-C02-Id", fmt.Sprint(fl.id))
-				serve(fl.q.Rt, o.rec, r)
+				serve(c.slot(fl.q.Sv, fl.q.Rt), o.rec, r)
 			}()
 		}
 		// horizon: past every program, deadline and cancel, plus one breaker window
@@ -695,10 +839,79 @@ func c02Lower(m map[string]string) map[string]string {
 	return o
 }
 
+// c02SweepClasses labels the wide-range inputs of a request (evidence histogram).
+func c02SweepClasses(c c02Case, q c02Req, p c02Plan, t, mb int, cls map[string]bool) {
+	if c.B != nil {
+		cls["two-servers-in-process"] = true
+		if q.Sv == 1 {
+			cls["request-to-second-server"] = true
+		}
+	}
+	if cf := c.cfg(q.Sv); cf.T < 0 || cf.MC < 0 || cf.MB < 0 {
+		cls["config-negative-value"] = true
+	}
+	if t >= 600000 {
+		cls["timeout>=1min"] = true
+	}
+	if t >= 25920000000 {
+		cls["timeout=30days"] = true
+	}
+	if c.mc(q.Sv) >= 100 {
+		cls["maxconns>=100"] = true
+	}
+	switch {
+	case mb >= 1<<53:
+		cls["maxbytes>=2^53"] = true
+	case mb >= 1<<31:
+		cls["maxbytes>=2^31"] = true
+	case mb >= 255:
+		cls["maxbytes>=255"] = true
+	}
+	if q.CU {
+		cls["content-length-unknown"] = true
+	}
+	if q.BL >= 255 {
+		cls["request-body>=255B"] = true
+	}
+	if q.DL > 0 {
+		cls["request-context-has-deadline"] = true
+		if t > 0 && q.DL-1 == p.d && (q.Cn < 0 || q.DL-1 < q.Cn) && q.DL-1 < t {
+			cls["request-context-deadline-first"] = true
+		}
+	}
+	if q.Up != "" {
+		cls["upgrade-header:"+q.Up] = true
+	}
+	switch c02Method(c.R[q.Rt].M) {
+	case http.MethodHead, http.MethodOptions, http.MethodPatch:
+		cls["method-HEAD/OPTIONS/PATCH"] = true
+	}
+	if len(p.body) >= 1<<20-1 {
+		cls["body~1MiB"] = true
+	}
+	for _, s := range q.P {
+		switch s.K {
+		case "B":
+			cls["write-exact-size"] = true
+			if s.N == 0 {
+				cls["write-0-bytes"] = true
+			}
+		case "H":
+			if s.N > 0 {
+				cls["header-kind:"+c02HdrKinds[s.N]] = true
+			}
+		case "P":
+			if s.N > 0 {
+				cls["panic-value:"+c02PanicKinds[s.N]] = true
+			}
+		}
+	}
+}
+
 func c02Judge(c c02Case, flat []c02Flat, obs []*c02Obs, maxCur []int32, cls map[string]bool) string {
 	type admitted struct{ leaveUS int64 }
-	latch := make([][]admitted, len(c.R))
-	behaved := make([]bool, len(c.R))
+	latch := make([][]admitted, c.slots())
+	behaved := make([]bool, c.slots())
 	for i := range behaved {
 		behaved[i] = true
 	}
@@ -723,10 +936,12 @@ func c02Judge(c c02Case, flat []c02Flat, obs []*c02Obs, maxCur []int32, cls map[
 			cls["handler-reads-body"] = true
 		}
 		who := fmt.Sprintf("request %d (route %d, arrival %dµs, plan d=%d f=%d panics=%v)", fl.id, q.Rt, fl.arrUS, p.d, p.f, p.panics)
-		t := c.timeoutTicks(q.Rt)
+		t := c.timeoutTicks(q.Sv, q.Rt)
+		sl, mc, mb := c.slot(q.Sv, q.Rt), c.mc(q.Sv), c.maxBytes(q.Sv, q.Rt)
 		if t == 0 {
 			cls["timeout-off"] = true
 		}
+		c02SweepClasses(c, q, p, t, mb, cls)
 		if !o.done {
 			return who + ": the client never received a response (ServeHTTP did not return within the horizon)"
 		}
@@ -756,23 +971,23 @@ func c02Judge(c c02Case, flat []c02Flat, obs []*c02Obs, maxCur []int32, cls map[
 
 		// --- MaxConns: model latch of this route (tokens = requests between entry and return of the guarded chain)
 		inside := 0
-		for _, a := range latch[q.Rt] {
+		for _, a := range latch[sl] {
 			if a.leaveUS > fl.arrUS {
 				inside++
 			}
 		}
-		tooBig := c.maxBytes(q.Rt) > 0 && q.CL > c.maxBytes(q.Rt)
-		if c.MC > 0 && inside >= c.MC {
+		tooBig := mb > 0 && !q.CU && q.CL > mb
+		if mc > 0 && inside >= mc {
 			cls["latch-full-arrival"] = true
 			if o.entered != 0 {
-				return fmt.Sprintf("%s: MaxConns=%d and %d requests of the route are inside, yet the handler ran; got %s", who, c.MC, inside, got)
+				return fmt.Sprintf("%s: MaxConns=%d and %d requests of the route are inside, yet the handler ran; got %s", who, mc, inside, got)
 			}
 			okStatus := o.rec.code == http.StatusServiceUnavailable || (tooBig && o.rec.code == http.StatusRequestEntityTooLarge)
 			if tooBig {
 				cls["latch-full+too-big"] = true
 			}
 			if !okStatus {
-				return fmt.Sprintf("%s: MaxConns=%d and %d requests inside: want 503, got %s", who, c.MC, inside, got)
+				return fmt.Sprintf("%s: MaxConns=%d and %d requests inside: want 503, got %s", who, mc, inside, got)
 			}
 			if s := noTrace(); s != "" {
 				return fmt.Sprintf("%s: rejected by MaxConns but %s; got %s", who, s, got)
@@ -785,16 +1000,16 @@ func c02Judge(c c02Case, flat []c02Flat, obs []*c02Obs, maxCur []int32, cls map[
 			}
 			continue
 		}
-		if c.MC > 0 && inside == c.MC-1 {
+		if mc > 0 && inside == mc-1 {
 			cls["latch-last-token"] = true
 		}
 
 		// --- MaxBytes
 		if tooBig {
 			cls["content-length>max"] = true
-			latch[q.Rt] = append(latch[q.Rt], admitted{fl.arrUS})
+			latch[sl] = append(latch[sl], admitted{fl.arrUS})
 			if o.entered != 0 {
-				return fmt.Sprintf("%s: Content-Length %d > MaxBytes %d, yet the handler ran; got %s", who, q.CL, c.maxBytes(q.Rt), got)
+				return fmt.Sprintf("%s: Content-Length %d > MaxBytes %d, yet the handler ran; got %s", who, q.CL, mb, got)
 			}
 			okStatus := o.rec.code == http.StatusRequestEntityTooLarge
 			if p.d == 0 {
@@ -808,7 +1023,7 @@ func c02Judge(c c02Case, flat []c02Flat, obs []*c02Obs, maxCur []int32, cls map[
 				okStatus = okStatus || (c.EH == 2 && o.rec.code == c02BusinessStatus) // see checkTimeout
 			}
 			if !okStatus {
-				return fmt.Sprintf("%s: Content-Length %d > MaxBytes %d: want 413, got %s", who, q.CL, c.maxBytes(q.Rt), got)
+				return fmt.Sprintf("%s: Content-Length %d > MaxBytes %d: want 413, got %s", who, q.CL, mb, got)
 			}
 			if s := noTrace(); s != "" {
 				return fmt.Sprintf("%s: 413 but %s; got %s", who, s, got)
@@ -818,8 +1033,8 @@ func c02Judge(c c02Case, flat []c02Flat, obs []*c02Obs, maxCur []int32, cls map[
 			}
 			continue
 		}
-		if c.maxBytes(q.Rt) > 0 {
-			if q.CL == c.maxBytes(q.Rt) {
+		if mb > 0 {
+			if q.CL == mb {
 				cls["content-length=max"] = true
 			} else {
 				cls["content-length<max"] = true
@@ -832,9 +1047,9 @@ func c02Judge(c c02Case, flat []c02Flat, obs []*c02Obs, maxCur []int32, cls map[
 			leave = p.d
 		}
 		leaveUS := fl.arrUS + int64(leave)*c02TickUS
-		latch[q.Rt] = append(latch[q.Rt], admitted{leaveUS})
+		latch[sl] = append(latch[sl], admitted{leaveUS})
 		if !p.behaved {
-			behaved[q.Rt] = false
+			behaved[sl] = false
 		}
 		if o.entered != 1 {
 			return fmt.Sprintf("%s: handler ran %d times, want once; got %s", who, o.entered, got)
@@ -849,7 +1064,7 @@ func c02Judge(c c02Case, flat []c02Flat, obs []*c02Obs, maxCur []int32, cls map[
 			}
 			continue
 		}
-		if t > 0 && o.rec.whCalls != 1 {
+		if t > 0 && !p.bypass && o.rec.whCalls != 1 {
 			return fmt.Sprintf("%s: %d WriteHeader calls reached the client, want exactly one response; got %s", who, o.rec.whCalls, got)
 		}
 
@@ -984,14 +1199,16 @@ func c02Judge(c c02Case, flat []c02Flat, obs []*c02Obs, maxCur []int32, cls map[
 			}
 		}
 	}
-	if c.MC > 0 {
-		for rt := range c.R {
-			if behaved[rt] && int(maxCur[rt]) > c.MC {
-				return fmt.Sprintf("route %d: %d handlers were running at the same instant, MaxConns=%d (all handlers return by their deadline)", rt, maxCur[rt], c.MC)
-			}
-			if int(maxCur[rt]) == c.MC {
-				cls["latch-saturated"] = true
-			}
+	for sl := 0; sl < c.slots(); sl++ {
+		mc := c.mc(sl / len(c.R))
+		if mc == 0 {
+			continue
+		}
+		if behaved[sl] && int(maxCur[sl]) > mc {
+			return fmt.Sprintf("server %d route %d: %d handlers were running at the same instant, MaxConns=%d (all handlers return by their deadline)", sl/len(c.R), sl%len(c.R), maxCur[sl], mc)
+		}
+		if int(maxCur[sl]) == mc {
+			cls["latch-saturated"] = true
 		}
 	}
 	return ""
@@ -1014,21 +1231,43 @@ func c02GenFor(allowNR bool) func(rt *rapid.T) c02Case {
 	}
 }
 
+// c02GenCfg draws the guard settings of one server: the small values around which
+// requests overlap, and now and then the far ends of the ranges (off by a negative
+// value, minutes to 30 days of virtual time, 2^31-1 connections, limits around
+// 2^8, 2^16, 2^20, 2^31, 2^32, 2^53 and MaxInt64).
+func c02GenCfg(rt *rapid.T) c02Cfg {
+	var cf c02Cfg
+	switch rapid.IntRange(0, 13).Draw(rt, "tkind") {
+	case 0, 1:
+		cf.T = 0
+	case 2:
+		cf.T = rapid.SampledFrom([]int{-1, -1, 60_000, 60_000, 60_000, 3_600_000, 3_600_000, 2_592_000_000}).Draw(rt, "tfar")
+	default:
+		cf.T = rapid.SampledFrom([]int{1, 1, 2, 3, 5, 10, 50, 200, 2000}).Draw(rt, "t")
+	}
+	cf.MC = rapid.SampledFrom([]int{0, 1, 1, 2, 2, 3, 4, 1, 2, 3, -1, 100, 65536, 1<<31 - 1}).Draw(rt, "mc")
+	switch rapid.IntRange(0, 9).Draw(rt, "mbkind") {
+	case 0, 1, 2, 3:
+	case 4, 5:
+		cf.MB = rapid.SampledFrom([]int{-1, 255, 256, 4096, 65536, 1 << 20, 1<<31 - 1, 1 << 31, 1 << 32, 1 << 53, 1<<63 - 1}).Draw(rt, "mbfar")
+	default:
+		cf.MB = rapid.IntRange(1, 64).Draw(rt, "mb")
+	}
+	return cf
+}
+
 func c02GenCase(rt *rapid.T) c02Case {
 	c := c02Case{}
-	if rapid.IntRange(0, 6).Draw(rt, "toff") == 0 {
-		c.T = 0
-	} else {
-		c.T = rapid.SampledFrom([]int{1, 1, 2, 3, 5, 10, 50, 200, 2000}).Draw(rt, "t")
-	}
-	c.MC = rapid.SampledFrom([]int{0, 1, 1, 2, 2, 3, 4}).Draw(rt, "mc")
-	if rapid.Bool().Draw(rt, "mbon") {
-		c.MB = rapid.IntRange(1, 64).Draw(rt, "mb")
+	cf := c02GenCfg(rt)
+	c.T, c.MC, c.MB = cf.T, cf.MC, cf.MB
+	if rapid.IntRange(0, 4).Draw(rt, "twin") == 0 {
+		b := c02GenCfg(rt)
+		c.B = &b
 	}
 	c.V = rapid.IntRange(0, 2).Draw(rt, "verbose") == 0
 	nr := rapid.SampledFrom([]int{1, 1, 1, 2}).Draw(rt, "routes")
 	for i := 0; i < nr; i++ {
-		r := c02Route{M: rapid.SampledFrom([]string{"GET", "POST", "PUT", "DELETE"}).Draw(rt, "method")}
+		r := c02Route{M: rapid.SampledFrom([]string{"GET", "POST", "PUT", "DELETE", "GET", "POST", "HEAD", "OPTIONS", "PATCH"}).Draw(rt, "method")}
 		if i > 0 && rapid.Bool().Draw(rt, "shared") {
 			r.Sh, r.M = true, c.R[i-1].M
 		}
@@ -1038,9 +1277,9 @@ func c02GenCase(rt *rapid.T) c02Case {
 				case "prefix":
 					r.O = append(r.O, c02Opt{K: "prefix", S: rapid.SampledFrom([]string{"/v1", "/api/v2", "/g"}).Draw(rt, "group")})
 				case "maxbytes":
-					r.O = append(r.O, c02Opt{K: "maxbytes", N: rapid.SampledFrom([]int{0, 1, 2, 7, 20, 64}).Draw(rt, "rmb")})
+					r.O = append(r.O, c02Opt{K: "maxbytes", N: rapid.SampledFrom([]int{0, 1, 2, 7, 20, 64, 1, 7, 64, 256, 65536, 1 << 31, 1 << 32}).Draw(rt, "rmb")})
 				case "timeout":
-					r.O = append(r.O, c02Opt{K: "timeout", N: rapid.SampledFrom([]int{0, 1, 2, 5, 15, 30}).Draw(rt, "rto")})
+					r.O = append(r.O, c02Opt{K: "timeout", N: rapid.SampledFrom([]int{0, 1, 2, 5, 15, 30, 1, 5, 30, 600_000}).Draw(rt, "rto")})
 				case "priority":
 					r.O = append(r.O, c02Opt{K: "priority"})
 				}
@@ -1058,11 +1297,14 @@ func c02GenCase(rt *rapid.T) c02Case {
 	id := 0
 	for g := 0; g < ng; g++ {
 		n := rapid.IntRange(1, 6).Draw(rt, "nreq")
-		risky := make([]int, nr)
+		risky := make([]int, c.slots())
 		var grp []c02Req
 		for i := 0; i < n; i++ {
 			q := c02Req{Rt: rapid.IntRange(0, nr-1).Draw(rt, "route"), Cn: -1}
-			t := c.timeoutTicks(q.Rt)
+			if c.B != nil {
+				q.Sv = rapid.IntRange(0, 1).Draw(rt, "server")
+			}
+			t := c.timeoutTicks(q.Sv, q.Rt)
 			d := t // scale of this request's durations
 			if d == 0 {
 				d = 20
@@ -1071,7 +1313,13 @@ func c02GenCase(rt *rapid.T) c02Case {
 			if rapid.IntRange(0, 3).Draw(rt, "cancel") == 0 {
 				q.Cn = c02Rel(rt, d, 0, "cn")
 			}
-			mb := c.maxBytes(q.Rt)
+			if rapid.IntRange(0, 5).Draw(rt, "ctxdeadline") == 0 {
+				q.DL = c02Rel(rt, d, 0, "dl") + 1
+			}
+			if rapid.IntRange(0, 7).Draw(rt, "upgrade") == 0 {
+				q.Up = rapid.SampledFrom([]string{"websocket", "h2c", "WebSocket", "websocket, h2c"}).Draw(rt, "up")
+			}
+			mb := c.maxBytes(q.Sv, q.Rt)
 			switch rapid.IntRange(0, 9).Draw(rt, "bodykind") {
 			case 0:
 				q.GZ = true
@@ -1079,11 +1327,24 @@ func c02GenCase(rt *rapid.T) c02Case {
 				q.BB = true
 			}
 			q.BL = rapid.IntRange(0, 70).Draw(rt, "bl")
+			if rapid.IntRange(0, 14).Draw(rt, "bigbody") == 0 {
+				q.BL = rapid.SampledFrom([]int{255, 256, 1024, 1025, 255, 256, 1024, 1025, 4096, 4096, 65536}).Draw(rt, "bigbl")
+			}
 			q.CL = q.BL
 			if mb > 0 {
-				q.CL = rapid.SampledFrom([]int{q.BL, mb - 1, mb, mb, mb + 1, mb + 1, mb + 1000}).Draw(rt, "cl")
+				cands := []int{q.BL, mb - 1, mb, mb}
+				if mb < 1<<63-1 {
+					cands = append(cands, mb+1, mb+1)
+				}
+				if mb < 1<<62 {
+					cands = append(cands, mb+1000)
+				}
+				q.CL = rapid.SampledFrom(cands).Draw(rt, "cl")
 			}
-			benign := risky[q.Rt] >= c02RiskyBudget
+			if rapid.IntRange(0, 9).Draw(rt, "clunknown") == 0 {
+				q.CU = true
+			}
+			benign := risky[c.slot(q.Sv, q.Rt)] >= c02RiskyBudget
 			if q.GZ && t > 0 && rapid.IntRange(0, 2).Draw(rt, "gzcancel") == 0 {
 				q.Cn = 0 // the deadline coincides with GunzipHandler's read of the gzip header
 			}
@@ -1091,12 +1352,13 @@ func c02GenCase(rt *rapid.T) c02Case {
 			if !q.BB {
 				readable = q.BL
 			}
-			q.P = c02GenProg(rt, t, q.Cn, benign, readable)
+			canWait := t > 0 || q.Cn >= 0 || q.DL > 0
+			q.P = c02GenProg(rt, t, canWait, benign || q.Up == "websocket", benign, readable)
 			if benign && c02MakePlan(c, id, q).risky {
-				q.Cn = -1 // a cancel at the arrival instant would make even an immediate handler a possible 499
+				q.Cn, q.DL = -1, 0 // a deadline at the arrival instant would make even an immediate handler a possible 499/503
 			}
 			if c02MakePlan(c, id, q).risky {
-				risky[q.Rt]++
+				risky[c.slot(q.Sv, q.Rt)]++
 			}
 			grp = append(grp, q)
 			id++
@@ -1121,7 +1383,9 @@ func c02Rel(rt *rapid.T, d, elapsed int, label string) int {
 	return rapid.SampledFrom(ok).Draw(rt, label)
 }
 
-func c02GenProg(rt *rapid.T, t, cn int, benign bool, readable int) []c02Step {
+// instant: the program must not take time (no sleep, wait or body read); benign: it must
+// not be able to end in a status >= 500 either.
+func c02GenProg(rt *rapid.T, t int, canWait, instant, benign bool, readable int) []c02Step {
 	codes := []int{200, 200, 201, 302, 400, 404, 413, 499, 500, 502, 503, 599, 200, 201, 404, 500, 0, 1, 99, 1000, -1}
 	if benign {
 		var p []c02Step
@@ -1140,20 +1404,22 @@ func c02GenProg(rt *rapid.T, t, cn int, benign bool, readable int) []c02Step {
 	if d == 0 {
 		d = 20
 	}
-	canWait := t > 0 || cn >= 0
 	n := rapid.IntRange(0, 7).Draw(rt, "steps")
 	var p []c02Step
 	wrote := false
 	elapsed := 0
 	for i := 0; i < n; i++ {
-		kinds := []string{"S", "W", "W", "W", "Z", "Z", "Z"}
+		kinds := []string{"S", "W", "W", "W", "B"}
+		if !instant {
+			kinds = append(kinds, "Z", "Z", "Z")
+		}
 		if !wrote {
 			kinds = append(kinds, "H", "H")
 		}
-		if canWait {
+		if canWait && !instant {
 			kinds = append(kinds, "C")
 		}
-		if readable > 0 {
+		if readable > 0 && !instant {
 			kinds = append(kinds, "R", "R")
 		}
 		if i == n-1 || i > 1 {
@@ -1161,7 +1427,21 @@ func c02GenProg(rt *rapid.T, t, cn int, benign bool, readable int) []c02Step {
 		}
 		switch k := rapid.SampledFrom(kinds).Draw(rt, "k"); k {
 		case "H":
-			p = append(p, c02Step{K: "H"})
+			hk := 0
+			if rapid.IntRange(0, 2).Draw(rt, "hkind") == 0 {
+				hk = rapid.IntRange(1, len(c02HdrKinds)-1).Draw(rt, "hk")
+			}
+			p = append(p, c02Step{K: "H", N: hk})
+		case "B":
+			bn := rapid.SampledFrom([]int{0, 1, 7, 255, 256, 257, 4095, 4096, 4097}).Draw(rt, "bytes")
+			switch rapid.IntRange(0, 19).Draw(rt, "bsize") {
+			case 0, 1, 2:
+				bn = rapid.SampledFrom([]int{32767, 32768, 32769, 65535, 65536, 65537}).Draw(rt, "kbytes")
+			case 3:
+				bn = rapid.SampledFrom([]int{1<<20 - 1, 1 << 20, 1<<20 + 1}).Draw(rt, "mibytes")
+			}
+			p = append(p, c02Step{K: "B", N: bn})
+			wrote = true
 		case "S":
 			code := rapid.SampledFrom(codes).Draw(rt, "code")
 			p = append(p, c02Step{K: "S", N: code})
@@ -1173,7 +1453,10 @@ func c02GenProg(rt *rapid.T, t, cn int, benign bool, readable int) []c02Step {
 			n := rapid.IntRange(1, 3).Draw(rt, "n")
 			switch rapid.IntRange(0, 11).Draw(rt, "size") {
 			case 0: // one large Write: around 1 KB, a few KB, up to ~64 KB
-				n = rapid.SampledFrom([]int{110, 114, 120, 400, 1500, 7000}).Draw(rt, "bign")
+				n = rapid.SampledFrom([]int{110, 114, 120, 400, 455, 456, 1500}).Draw(rt, "bign")
+				if rapid.IntRange(0, 4).Draw(rt, "huge") == 0 { // 32 KiB, ~64 KiB, 1 MiB
+					n = rapid.SampledFrom([]int{3641, 7000, 7282, 7282, 116509}).Draw(rt, "hugen")
+				}
 			case 1: // many small Writes
 				p = append(p, c02Step{K: "M", N: rapid.SampledFrom([]int{2, 5, 113, 115, 300}).Draw(rt, "many")})
 				wrote = true
@@ -1201,7 +1484,11 @@ func c02GenProg(rt *rapid.T, t, cn int, benign bool, readable int) []c02Step {
 				elapsed = d
 			}
 		case "P":
-			p = append(p, c02Step{K: "P"})
+			pk := 0
+			if rapid.Bool().Draw(rt, "pkind") {
+				pk = rapid.IntRange(1, len(c02PanicKinds)-1).Draw(rt, "pk")
+			}
+			p = append(p, c02Step{K: "P", N: pk})
 			return p
 		}
 	}
